@@ -122,8 +122,9 @@ def build(ctx, case, db):
         blocks = "GAS_PHASE 1\n -%s\n" % ("fixed_pressure" if mode == "fixed_p" else "fixed_volume")
         if mode == "fixed_p":
             blocks += " -pressure %s\n" % f(P)
-        blocks += " -volume %s\n -temperature %s\n" % (f(gens.loguni(r, 0.05, 5)), f(temp))
         equil = mode == "fixed_v" and r.random() < 0.4      # -equilibrate is only defined for fixed-volume phases
+        # with -equilibrate the gas takes the temperature of its solution: half of those cases leave -temperature out (it then stays at its 25 C default in the definition)
+        blocks += " -volume %s\n" % f(gens.loguni(r, 0.05, 5)) + ("" if (equil and r.random() < 0.5) else " -temperature %s\n" % f(temp))
         if equil:
             blocks += " -equilibrate 1\n"
             for g in gases:
@@ -133,6 +134,7 @@ def build(ctx, case, db):
                 blocks += " %s %s\n" % (g, f(pp[g] * (1 if mode == "fixed_v" else r.uniform(0.3, 1.5))))
         info["equil"] = equil
     react = gens.reaction(r, 1, steps="%s mmol" % f(gens.loguni(r, 0.1, 10))) if r.random() < 0.3 else ""
+    info["react"] = bool(react)
     heads = ["tk", "gas_p", "gas_vm"]
     items = ["TK", "GAS_P", "GAS_VM"]
     for g in gases:
@@ -221,6 +223,17 @@ def run_case(ctx, case):
         return Result(INCONCLUSIVE, reason="no reaction row")
     d = rrows[-1]
     tk = d["tk"]
+    # a gas phase made by -equilibrate from solution 1 and then reacted with solution 1 (nothing else added) is already at equilibrium: the step moves nothing,
+    # every gas keeps the saturation index it has in the initial solution
+    # (the initial composition is made with the ideal-gas law, so the statement is exact only where the Peng-Robinson correction is small: judged below 2 atm at 5e-3 in SI)
+    if info.get("equil") and not info.get("react") and (d.get("gas_p") or 99) <= 2.0:
+        irow = [x for x in rows if x.get("state") == "i_soln"]
+        if irow:
+            for g_ in info["gases"]:
+                a_, b_ = irow[-1].get("si:%s" % g_), d.get("si:%s" % g_)
+                if a_ is not None and b_ is not None and a_ > -5 and b_ > -90 and abs(a_ - b_) > 2e-3 + 0.3 * abs(math.log10(tk / 298.15)):      # a third of what taking the moles at 25 C instead of T would do; measured on the unchanged tree: 6e-3 at 470 K;      # trace gases (H2, O2, CH4 of a water without a redox couple) float
+                    return Result(VIOLATED, key="C19/equilibrate-not-at-equilibrium", what="%s: SI(%s) = %.8f in solution 1, %.8f after reacting solution 1 with the gas phase that -equilibrate made from it (%.2f K, V %s)" % (
+                        case["id"], g_, a_, b_, tk, "fixed"), sample=dict(id=case["id"], info=info))
     gases = info["gases"]
     findings, sigs = [], set()
     nchk = 0
@@ -321,8 +334,8 @@ def run_case(ctx, case):
             B = b_sum * P / (R * tk)
             clamp = False
             for g in gases:
-                if x[g] <= 0:
-                    continue
+                if x[g] <= 1e-8:
+                    continue      # a component at the solver's floor: its coefficient is reported to 1e-6 only (thorough seed 9: 1.00000814 vs 1.00000687 at x = 1e-20)
                 phi_rep = d["phi:%s" % g]
                 if rz > B:
                     Br = par[g][1] / b_sum
